@@ -130,6 +130,12 @@ def examine(case):
     clear_caches()
     out = []
     hist = []
+    if case.get('fact') == 'outcome-class':
+        c = tuple(case['calls'][0])
+        o = run_fresh([c])[0]
+        if o not in ('True', 'False', 'raises:ValidationError', 'raises:SchemaError'):
+            out.append(V('references-resolve', ['outcome-class', c[0], o.split(':')[-1]], case, o))
+        return out
     for raw in case['calls']:
         c = tuple(raw)
         got = do_call(c)
@@ -273,6 +279,20 @@ def run(ctx):
         if not ok:
             ctx.violation(V('bundled-samples', ['sample-fact', 'invalid' if invalid else 'valid'],
                             {'calls': [['va', d, schema, False]], 'fresh': {}}, [a, b]))
+    # 2b. every call on bundled files ends in one of the documented outcomes - True, False, or the schema / validation error -
+    # in a fresh process: anything else (a reference that does not resolve, a file of the bundle not found, a network
+    # error) contradicts "relative file references between schemas resolve without network access"
+    allowed = {'True', 'False', 'raises:ValidationError', 'raises:SchemaError'}
+    for c in allcalls:
+        o = fresh[json.dumps(list(c))]
+        ctx.count()
+        if o in allowed:
+            continue
+        if o == 'raises:FileNotFoundError' and c[0] == 'va' and '\\' in c[1]:
+            continue            # a DOCUMENT path spelled with backslashes is not looked up in the bundle: no such file here
+        ctx.violation(V('references-resolve', ['outcome-class', c[0], o.split(':')[-1]],
+                        {'calls': [list(c)], 'fresh': {}, 'fact': 'outcome-class'}, o, sorted(allowed)))
+    ctx.label('outcome-class-facts', len(allcalls))
     # 3. histories
     rng = random.Random(derive_seed(ctx.seed, 'C19'))
     false_keys = [c for c in allcalls if fresh[json.dumps(list(c))] != 'True' and not c[3]]
